@@ -190,7 +190,7 @@ SRet ==
             (IF e.k = "panic" THEN {<<"C13", "Panic", call.op \o ": " \o e.e>>} ELSE {})
        \cup (IF e.over THEN {<<"C13", "Hang", call.op \o " exceeded the SPI traffic budget">>} ELSE {})
        \* C12: on a healthy card with legal timing every call succeeds and is exact
-       \cup (IF ~ok /\ e.k # "panic" /\ ~e.over /\ ~Faulty /\ call.op # "mark_uninit"
+       \cup (IF ~ok /\ e.k # "panic" /\ ~e.over /\ ~Faulty /\ call.op # "mark_uninit" /\ ~(dataop /\ call.blk + call.n > cfg.nblocks)
              THEN {<<"C12", "Result", call.op \o " failed on a healthy card: " \o e.e>>} ELSE {})
        \cup (IF ok /\ call.op = "read" /\ e.pay # [i \in 1..call.n |-> MemAt(exp, blocks[i])]
                 /\ ~\E i \in 1..call.n : MemAt(exp, blocks[i]) = -1
@@ -201,6 +201,8 @@ SRet ==
        \cup (IF ok /\ call.op \in {"num_blocks", "num_bytes"} /\ (e.val # cfg.capp \/ e.rem # 0) /\ ~Corrupt
              THEN {<<"C12", "Capacity", "reported capacity differs from the CSD register's (structure version " \o ToString(cfg.csd.ver) \o ")">>} ELSE {})
        \cup (IF ok /\ call.op = "card_type" /\ e.e # cfg.kind THEN {<<"C12", "CardKind", "identified " \o e.e \o " for a " \o cfg.kind \o " card">>} ELSE {})
+       \cup (IF ok /\ dataop /\ call.blk >= cfg.nblocks /\ ~Faulty
+             THEN {<<"C12", "OutOfRange", call.op \o " beyond the card's capacity reported success">>} ELSE {})
        \* C13: what must be an error
        \cup (IF ok /\ cfg.crc /\ call.op \in {"read", "num_blocks", "num_bytes"} /\ \E i \in 1..Min2(call.n, Len(dl)) : dl[i] = "crc"
              THEN {<<"C13", "CorruptAccepted", "corrupted data returned as good although CRC is enabled">>} ELSE {})
